@@ -241,14 +241,26 @@ def run_check(modname: str, tier: str, max_runs: int, chunk: int = 8,
             failure = dict(fv[0])
             failure["log"] = final.get("log")
             path = kit.write_replay(prop, item["seed"], small, failure)
-            # the replay file must reproduce the violation in a fresh process
+            # the replay file must reproduce the violation in a fresh process; if the minimised
+            # trace does not, the trace as found is written instead and must
             try:
                 import subprocess
 
-                rp = subprocess.run(
-                    [sys.executable, "-B", os.path.join(kit.VERIF, "sim", "main.py"), prop,
-                     "--replay", path], capture_output=True, text=True, timeout=600,
-                    env=dict(os.environ, VERIF_SRC=kit.SRC))
+                def fresh_replay(p: str) -> Any:
+                    return subprocess.run(
+                        [sys.executable, "-B", os.path.join(kit.VERIF, "sim", "main.py"), prop,
+                         "--replay", p], capture_output=True, text=True, timeout=600,
+                        env=dict(os.environ, VERIF_SRC=kit.SRC))
+
+                rp = fresh_replay(path)
+                if rp.returncode != 1 and small is not trace:
+                    fo = [x for x in again["violations"] if x["sig"] == v["sig"]]
+                    failure = dict(fo[0], log=again.get("log"), minimisation="discarded: the minimised "
+                                   "trace did not reproduce in a fresh process")
+                    with open(path, "w") as fh:
+                        json.dump({"property": prop, "seed": item["seed"], "trace": trace,
+                                   "failure": failure}, fh, indent=1, default=kit._json_default)
+                    rp = fresh_replay(path)
                 if rp.returncode != 1:
                     harness_errors.append(
                         f"replay file {path} did not reproduce in a fresh process "
